@@ -300,6 +300,106 @@ def check_aliasing(res, B, elems, xs, case, sub, ops_wanted, tol=1e-11):
                     break
 
 
+def check_spellings(res, B, elems, xs, case, sub, tol=1e-11):
+    """N11: every public spelling of an operation gives the result of the spelling the other explorers use (element methods through
+    casadi Functions): the group / algebra level functions (`G.product(X, Y)`, `G.log(X)`, `G.exp(x)`, `A.bracket(x, y)`, ...), the
+    operators (`X + x`, `X - x`, `x + y`, `x - y`, `-x`, `2 * x`, `x * 2`, `X == Y`), `identity()` against the element of the identity
+    parameters, `wedge` / `vee`, and shallow / deep copies and pickles of elements."""
+    import copy
+    from . import gutil, lib
+    G, A = B.G, B.G.algebra
+    L_ = lib.layout(G)
+    for op in ("product", "inverse", "log", "exp", "to_Matrix", "Ad", "ad", "wedge", "bracket", "identity"):
+        B.get(op)
+    have = lambda op: B.status.get(op) == "ok"  # noqa: E731
+
+    def E(p):
+        return G.elem(ca.DM(p))
+
+    def a(p):
+        return A.elem(ca.DM(p))
+
+    def judge(name, fn, want, info):
+        res.count("evaluations")
+        res.count("spelling_calls")
+        try:
+            with contextlib.redirect_stdout(io.StringIO()):
+                got = fn()
+        except NotImplementedError:
+            return
+        except Exception as ex:
+            res.fail(site="%s.%s" % (B.name, name), clause="numeric_api:alternative_spelling_raises", cls=name, detail=dict(info, error="%s: %s" % (type(ex).__name__, str(ex)[:200])), sub=sub, case=case)
+            return
+        if got is None:
+            return
+        if hasattr(got, "param"):
+            got = got.param
+        got = ev(got)
+        ok, err = _same(got.reshape(np.shape(want)) if got.size == np.size(want) else got, want, tol)
+        if not ok:
+            res.fail(site="%s.%s" % (B.name, name), clause="numeric_api:alternative_spelling_agrees", cls=name, detail=dict(info, got=got, want=want, err=err), sub=sub, case=case)
+
+    for i, p in enumerate(elems):
+        q = elems[(i + 1) % len(elems)]
+        info = dict(X=np.asarray(p))
+        if have("inverse"):
+            judge("G.inverse(X)", lambda: G.inverse(E(p)), B.call("inverse", p), info)
+        if have("to_Matrix"):
+            judge("G.to_Matrix(X)", lambda: G.to_Matrix(E(p)), B.call("to_Matrix", p), info)
+            for cname, cp in (("copy.copy", copy.copy), ("copy.deepcopy", copy.deepcopy)):  # (CasADi refuses to pickle SX outside its own context)
+                judge("%s(X).to_Matrix()" % cname, lambda cp=cp: cp(E(p)).to_Matrix(), B.call("to_Matrix", p), info)
+        if have("Ad"):
+            judge("G.adjoint(X)", lambda: G.adjoint(E(p)), B.call("Ad", p), info)
+        if have("log"):
+            w_ = B.call("log", p)
+            if np.all(np.isfinite(w_)):
+                judge("G.log(X)", lambda: G.log(E(p)), w_, info)
+        if have("product") and not np.array_equal(p, q) and gutil.product_excluded(L_, p, q) is None:
+            w_ = B.call("product", p, q)
+            judge("G.product(X, Y)", lambda: G.product(E(p), E(q)), w_, dict(info, Y=np.asarray(q)))
+            judge("G.product(left=X, right=Y)", lambda: G.product(left=E(p), right=E(q)), w_, dict(info, Y=np.asarray(q)))
+        judge("X == X", lambda: E(p) == E(p), np.array([[1.0]]), info)
+        if not np.array_equal(p, q):
+            judge("X == Y", lambda: E(p) == E(q), np.array([[0.0]]), dict(info, Y=np.asarray(q)))
+    if have("identity"):
+        pid_ = B.vec("identity")
+        if have("to_Matrix"):
+            judge("identity().to_Matrix()", lambda: G.identity().to_Matrix(), B.call("to_Matrix", pid_), dict())
+        if have("product") and elems:
+            judge("identity() * X", lambda: G.identity() * E(elems[0]), B.call("product", pid_, elems[0]), dict(X=np.asarray(elems[0])))
+    for i, x in enumerate(xs):
+        y = xs[(i + 1) % len(xs)]
+        info = dict(x=np.asarray(x))
+        x_ = np.asarray(x, dtype=float)
+        y_ = np.asarray(y, dtype=float)
+        if have("exp"):
+            w_ = B.call("exp", x)
+            if np.all(np.isfinite(w_)):
+                judge("G.exp(x)", lambda: G.exp(a(x)), w_, info)
+                if elems and have("product"):
+                    X0 = elems[i % len(elems)]
+                    if gutil.product_excluded(L_, X0, w_.reshape(-1)) is None:
+                        judge("X + x", lambda: E(X0) + a(x), B.call("product", X0, w_.reshape(-1)), dict(info, X=np.asarray(X0)))
+                    wm = B.call("exp", -x_)
+                    if np.all(np.isfinite(wm)) and gutil.product_excluded(L_, X0, wm.reshape(-1)) is None:
+                        judge("X - x", lambda: E(X0) - a(x), B.call("product", X0, wm.reshape(-1)), dict(info, X=np.asarray(X0)))
+        if have("ad"):
+            judge("A.adjoint(x)", lambda: A.adjoint(a(x)), B.call("ad", x), info)
+        if have("wedge"):
+            judge("A.to_Matrix(x)", lambda: A.to_Matrix(a(x)), B.call("wedge", x), info)
+            judge("A.wedge(p).to_Matrix()", lambda: A.wedge(ca.DM(x_)).to_Matrix(), B.call("wedge", x), info)
+        judge("x.vee()", lambda: a(x).vee(), x_.reshape(-1, 1), info)
+        judge("A.vee(x)", lambda: A.vee(a(x)), x_.reshape(-1, 1), info)
+        if have("bracket") and not np.array_equal(x_, y_):
+            judge("A.bracket(x, y)", lambda: A.bracket(a(x), a(y)), B.call("bracket", x, y), dict(info, y=y_))
+            judge("A.bracket(left=x, right=y)", lambda: A.bracket(left=a(x), right=a(y)), B.call("bracket", x, y), dict(info, y=y_))
+        for name, fn, want in (("x + y", lambda: a(x) + a(y), x_ + y_), ("x - y", lambda: a(x) - a(y), x_ - y_), ("-x", lambda: -a(x), -x_), ("2 * x", lambda: 2 * a(x), 2 * x_),
+                               ("x * 2", lambda: a(x) * 2, 2 * x_), ("0.5 * x", lambda: 0.5 * a(x), 0.5 * x_), ("A.addition(x, y)", lambda: A.addition(a(x), a(y)), x_ + y_),
+                               ("A.scalar_multiplication(3, x)", lambda: A.scalar_multiplication(3, a(x)), 3 * x_), ("x == x", lambda: a(x) == a(x), np.array([[1.0]])),
+                               ("copy.deepcopy(x).param", lambda: copy.deepcopy(a(x)), x_), ("copy.copy(x).param", lambda: copy.copy(a(x)), x_)):
+            judge(name, fn, np.asarray(want, dtype=float).reshape(-1, 1) if np.size(want) > 1 else np.asarray(want, dtype=float), dict(info, y=y_))
+
+
 def check_history(res, B, elems, xs, case, sub, targets, preludes, tol=1e-11):
     """N6: the result of an operation on an element object does not depend on which other operations were called on that object before
     (lazily cached or silently rewritten per-object state).  For every element, every target op and every prelude op (same argument
